@@ -55,6 +55,9 @@ impl Layer for Contexts {
         if c.nocase && (c.p.contains("[:upper:]") || c.p.contains("[:lower:]")) {
             v.push("nocase_with_case_class".to_string());
         }
+        if c.extglob && (c.p.contains("()") || c.p.contains("(|") || c.p.contains("|)") || c.p.contains("||")) {
+            v.push("extglob_empty_group".to_string());
+        }
         v
     }
     fn shrink_candidates(&self, c: &CtxCase) -> Vec<CtxCase> {
@@ -129,7 +132,7 @@ impl Layer for Contexts {
 }
 
 const P_ATOMS: &[&str] = &[
-    "a", "b", "c", "A", "é", ".", "-", "*", "*", "?", "?", "[ab]", "[!a]", "[a-c]", "[]a]", "[!]]", "[a-]", "[\\]]", "[[:alpha:]]", "[[:digit:][:upper:]]", "\\*", "\\?", "\\[", "\\\\", "\\a",
+    "a", "b", "c", "A", "é", ".", "-", "*", "*", "?", "?", "[ab]", "[!a]", "[a-c]", "[]a]", "[!]]", "[a-]", "[\\]]", "[\\b]", "[\\d\\w]", "[a\\-c]", "[[:alpha:]]", "[[:digit:][:upper:]]", "\\*", "\\?", "\\[", "\\\\", "\\a",
     "@(a|b)", "?(a)", "*(ab)", "+(a|bc)", "@(a*|?b)", "*(?)", "+([ab])", "@()",
 ];
 const S_ATOMS: &[&str] = &["a", "b", "c", "A", "B", "é", ".", "-", "]", "[", "*", "?", "\\", "\n", " ", "0", "ab", "bc"];
